@@ -1068,6 +1068,13 @@ class Init(probe.Contract):
         d = x.ndim // 2
         tags = ['order=%d' % d if d <= 2 else 'order>=3'] + (['complex'] if np.iscomplexobj(x) else [])
         got = dense_cores(t.cores)
+        amax = float(np.max(np.abs(x))) if x.size else 0.0
+        if np.isfinite(amax) and amax > 0 and (amax < 1e-100 or amax > 1e100) and got.shape == x.shape:
+            # entries whose squares leave the floating-point range: the reference works on the array rescaled by an exact power of two
+            # (every clause of the statement is homogeneous in the tensor)
+            p2 = 2.0 ** np.floor(np.log2(amax))
+            x, got = x / p2, got / p2
+            tags = tags + ['extreme_scale']
         nrm = float(np.linalg.norm(x.reshape(-1)))
         err = float(np.linalg.norm((got - x).reshape(-1))) if got.shape == x.shape else np.inf
         c.check(self.api, 'dims', got.shape == x.shape, tags, {'got': got.shape, 'want': x.shape}, prop='C04')
